@@ -66,6 +66,20 @@ NEEDS = {
     "C18-4": "the first contribution to a signal is a 0-d numpy array (aliased instead of copied), then mutated by the caller / added to a second signal",
     "C19-4": "use_df given and a complex-valued selected output: an imaginary part is added to the caller's seed",
     "C20-4": "the ScalarToFile log file already exists when a new instance makes its first call (appended instead of truncated)",
+    "C02-5": "a module input that is a SignalSlice of a signal with ndim >= 2 indexed with a basic slice followed by an index array (X[:, [0, 3]]): the write-back is skipped because .base is not None although the slice is a copy",
+    "C03-5": "one dense LinSolve (SolverDenseCholesky) whose Cholesky factorisation fails for one matrix (LDL fallback) and succeeds for a later one: the success flag is never set back, the stale LDL factors answer",
+    "C04-5": "ElementOperation / Strain / Stress / ElementAverage: sensitivity() evaluated more than once since the last Module.reset() (work array accumulates across calls)",
+    "C05-5": "auto_determine_solver(A, issymmetric=True) without ishermitian on a dense complex symmetric non-Hermitian matrix (hermitian flag copied from the symmetry flag)",
+    "C06-5": "a block right-hand side in which a column answered from the database (in the span, or zero) precedes a new column: the pair stored for the new column takes the wrong column of the remaining right-hand side",
+    "C07-5": "one LinSolve / SystemOfEquations / StaticCondensation with dense Hermitian matrices: a not positive definite matrix (Cholesky fails, LDL fallback) followed by a positive definite one",
+    "C10-5": "a single 1-D design-variable signal whose reset() zeroes its sensitivity in place (Signal constructed with a sensitivity, or a SignalSlice) and at least one constraint: all gradient rows alias one buffer",
+    "C11-5": "dense EigenSolve whose input signals hold Fortran-ordered (or transposed-view) arrays: LAPACK overwrites the caller's A and B",
+    "C15-5": "B = c * A with the scalar on the left, then column zeroing B[:, cols] = 0 (or on A): v arrays shared between both carriers",
+    "C16-5": "data whose spread is below np.isclose's tolerances (1e-9*(2+rand), 1+1e-7*rand, 1e6+rand): the active set is silently skipped",
+    "C17-5": "l2init / l1l2tol > 2**52 with a multiplier far below np.spacing(l2init): objective of magnitude 1e-14 with l1l2tol=1e-20, or l2init=1e22",
+    "C18-5": "add_sensitivity through a slice of a slice while the root signal has no sensitivity yet (first contribution after construction or root.reset())",
+    "C19-5": "finite_difference on an input whose state is a non-C-contiguous array (Fortran-ordered, transposed view, reversed 1-D view) with a dense sensitivity",
+    "C20-5": "WriteToVTI with an extension-less saveto, overwrite=False and at least two calls: every iteration lands in the same <stem>.vti",
     "C20-1": "scale != 1 and at least two writes with the same DomainDefinition (element_size view scaled in place): Spacing wrong from the second file on",
 }
 
